@@ -376,6 +376,215 @@ def build_system(am, case, cell_style):
     return am.System(atoms=atoms, box=box, pbc=case['pbc'], symbols=case['symbols'], masses=case['masses'])
 
 
+# --------------------------------------------------------------------------- call histories on one System
+
+def current(system):
+    """Cell and positions of a System as they are now (plain attribute reads: the reciprocal-vector cache of the Box
+    is neither used nor filled)."""
+    return np.array(system.box.vects, float), np.array(system.box.origin, float), np.array(system.atoms.view['pos'], float)
+
+
+def cell_kwargs(v2, o2, style):
+    if style == 'vects':
+        return dict(vects=v2.copy(), origin=o2.copy())
+    if style == 'avect':
+        return dict(avect=v2[0].copy(), bvect=v2[1].copy(), cvect=v2[2].copy(), origin=o2.copy())
+    a, b, c, al, be, ga = G.lengths_angles(v2)
+    return dict(a=a, b=b, c=c, alpha=al, beta=be, gamma=ga, origin=o2.copy())
+
+
+class History:
+    """The steps a history is made of.  Every step that calls wrap / box_set / normalize is judged by the installed
+    monitors from its own before/after snapshot; the steps done by the workload itself (moving atoms, changing pbc,
+    Box.set behind the System) only prepare the next judged call."""
+
+    def __init__(self, ctx, am, system, i, tag):
+        self.ctx, self.am, self.rec, self.system, self.i, self.tag = ctx, am, ctx.rec, system, i, tag
+        self.ok = True
+        self.nstep = 0
+        self.outside = 0
+
+    def _count(self, what):
+        self.nstep += 1
+        self.rec.count('hist:step-' + what)
+
+    def wrap(self, system=None):
+        system = self.system if system is None else system
+        done = False
+        with self.ctx.guard('wrap accepts any cell, origin, periodicity and atom placement', 'wrap:exception'):
+            if (self.i + self.nstep) % 3 == 2:
+                system.wrap()
+            else:
+                system.wrap(return_imageflags=True)
+            done = True
+        self.ok &= done
+        self._count('wrap')
+
+    def read_scaled(self, system=None):
+        """Any of the calls that convert Cartesian to relative coordinates on this Box (and so fill its cache)."""
+        system = self.system if system is None else system
+        how = (self.i // 11 + self.nstep) % 3
+        with self.ctx.guard('scaled positions can be read', 'history:read-scaled:exception'):
+            if how == 0:
+                system.atoms_prop('pos', scale=True)
+            elif how == 1:
+                system.box.position_cartesian_to_relative(system.atoms.pos)
+            else:
+                system.box.reciprocal_vects
+        self._count('read-scaled')
+
+    def move(self, system=None):
+        system = self.system if system is None else system
+        v, o, pos = current(system)
+        newpos, newrel, out = S.displaced(self.ctx.rng, pos, v, o)
+        self.outside += out
+        style = S.MOVE_STYLES[(self.i // 2 + self.nstep) % 3]
+        with self.ctx.guard('atom positions can be assigned', 'history:move:exception'):
+            if style == 'prop-cart':
+                system.atoms_prop('pos', value=newpos)
+            elif style == 'prop-scaled':
+                system.atoms_prop('pos', value=newrel, scale=True)
+            else:
+                system.atoms.view['pos'][:] = newpos
+        self.rec.count('hist:move-' + style)
+        self._count('move')
+
+    def set_cell(self, how, scaled, direct=False, system=None):
+        system = self.system if system is None else system
+        v, o, _ = current(system)
+        v2, o2 = S.new_cell(self.ctx.rng, v, o, how)
+        style = S.CELL_STYLES[(self.i + self.nstep) % 3]
+        if style == 'abc' and (how == 'rehanded' or direct):
+            style = 'vects'                      # lengths and angles cannot describe a handedness
+        kw = cell_kwargs(v2, o2, style)
+        done = False
+        with self.ctx.guard('the cell of a System can be replaced', 'history:set-cell:exception'):
+            if direct:
+                d = (self.i // 11) % 3
+                if d == 0 or style == 'abc':
+                    system.box.set(**kw)
+                elif d == 1:
+                    system.box.vects = v2.copy()
+                    system.box.origin = o2.copy()
+                else:
+                    system.box.set_vectors(v2[0].copy(), v2[1].copy(), v2[2].copy(), origin=o2.copy())
+                self.rec.count('hist:cell-direct-%d' % d)
+            elif scaled:
+                system.box_set(scale=True, **kw)
+            elif self.nstep % 2:
+                system.box_set(scale=False, **kw)
+            else:
+                system.box_set(**kw)
+            done = True
+        self.ok &= done
+        STATE['hist']['replaced'] = True
+        self.rec.count('hist:newcell-' + how)
+        self.rec.count('hist:cellstyle-' + style)
+        self._count('set-cell-scaled' if scaled else 'set-cell')
+
+    def normalize(self, system=None, want=True):
+        system = self.system if system is None else system
+        res = None
+        hand = 'left-handed' if G.volume(system.box.vects) < 0 else 'right-handed'
+        with self.ctx.guard('normalize accepts any fully periodic cell (either handedness), origin and atom placement',
+                            'normalize:exception:' + hand):
+            if not want:
+                res = (system.normalize(), None)
+            elif (self.i + self.nstep) % 2:
+                res = system.normalize(return_transform=True)
+            else:
+                res = self.am.lammps.normalize(system, return_transform=True)
+        self.ok &= res is not None
+        self._count('normalize')
+        return res if res is not None else (None, None)
+
+
+def run_history(ctx, am, i, case, kind, how):
+    rec = ctx.rec
+    system = None
+    with ctx.guard('a System can be built from the generated cell and atoms', 'history:build'):
+        system = build_system(am, case, 'vects' if i % 2 else 'avect')
+    if system is None:
+        return
+    STATE['hist'] = dict(kind=kind, replaced=False)
+    h = History(ctx, am, system, i, kind)
+    try:
+        if kind == 'wrap-move-wrap':
+            h.wrap()
+            h.move()
+            h.wrap()
+            h.move()
+            h.wrap()
+        elif kind == 'wrap-newcell-wrap':
+            h.wrap()
+            h.set_cell(how, scaled=False)
+            h.wrap()
+        elif kind == 'read-boxset-scaled-wrap':
+            h.read_scaled()
+            h.set_cell(how, scaled=True)
+            h.wrap()
+        elif kind == 'strain-loop':
+            hows = ['strain-tiny', 'strain-small', 'strain']
+            for r in range(3):
+                h.set_cell(hows[(i // 11 + r) % 3], scaled=(r + i // 33) % 2 == 0)
+                if r != 1:
+                    h.move()
+                h.wrap()
+        elif kind == 'wrap-pbc-wrap':
+            h.wrap()
+            k0 = S.cells.PBCS.index(tuple(bool(x) for x in system.pbc))
+            system.pbc = S.cells.PBCS[(k0 + 1 + (i // 11) % 7) % 8]
+            rec.count('hist:pbc-changed')
+            h.move()
+            h.wrap()
+        elif kind == 'read-normalize':
+            h.read_scaled()
+            h.normalize(want=(i // 11) % 3 != 2)
+        elif kind == 'boxset-scaled-normalize':
+            h.set_cell(how, scaled=True)
+            h.normalize()
+        elif kind == 'wrap-normalize-normalize':
+            h.wrap()
+            new, T = h.normalize()
+            if new is not None:
+                new2, T2 = h.normalize(new)
+                if T2 is not None:
+                    rec.close(1e-8, T2, np.eye(3), 'normalizing a normalized system is the identity rotation', 'normalize:renormalize-transform')
+                    rec.count('normalize:renormalized')
+        elif kind == 'normalize-twice':
+            n1, T1 = h.normalize()
+            h.read_scaled()
+            n2, T2 = h.normalize()
+            if n1 is not None and n2 is not None:
+                v1, o1, p1 = current(n1)
+                v2, o2, p2 = current(n2)
+                L = np.linalg.norm(v1, axis=1).max()
+                same = (W.same_cell(v2, o2, v1, o1) <= 1e-12 and p1.shape == p2.shape and bool(np.all(np.abs(p1 - p2) <= 1e-12 * L * (1 + np.abs(o1).max() / L)))
+                        and bool(np.all(np.abs(np.asarray(T1) - np.asarray(T2)) <= 1e-12)))
+                rec.check(same, 'the input is left as it was: normalizing it a second time gives the same result', 'normalize:second-result-differs',
+                          vects=case['vects'], origin=case['origin'], vects1=v1, vects2=v2)
+                rec.count('hist:normalize-twice-compared')
+        elif kind == 'normalize-output-reused':
+            new, T = h.normalize()
+            if new is not None:
+                h.move(new)
+                h.wrap(new)
+                h.set_cell(how, scaled=True, system=new)
+                h.wrap(new)
+                h.normalize(new)
+        elif kind == 'box-set-direct-wrap':
+            h.read_scaled()
+            h.set_cell(how, scaled=False, direct=True)
+            h.wrap()
+        else:
+            raise ValueError(kind)
+    finally:
+        STATE['hist'] = None
+    if h.ok:
+        rec.count('hist:completed-' + kind)
+    return h
+
+
 def class_sig(c):
     return (c['kind'], c['hand'], c['origin'], c['scale'], ''.join('1' if p else '0' for p in c['pbc']), c['natoms'], c['profile'])
 
@@ -402,6 +611,7 @@ def run(ctx):
         rec.count('wrap:pbc-' + ''.join('1' if p else '0' for p in c['pbc']))
         rec.count('wrap:hand-' + ('left' if c['hand'] != 'right' else 'right'))
         rec.count('wrap:kind-' + c['kind'])
+        rec.count('wrap:scale-' + S.scale_name(c['scale']))
         for t in set(case['tags']):
             rec.count('wrap:cases-with-' + t + '-atoms')
         nonper = ~np.array(c['pbc'], bool)
@@ -434,6 +644,9 @@ def run(ctx):
             rec.sample(dict(classes=c, vects=case['vects'], origin=case['origin'], rel=rel[:4], tags=case['tags'][:4]))
         rec.count('normalize:hand-' + c['hand'])
         rec.count('normalize:kind-' + c['kind'])
+        rec.count('normalize:scale-' + S.scale_name(c['scale']))
+        if c['scale'] <= S.TINY and (c['hand'] != 'right' or not case['lammps']):
+            rec.count('normalize:tiny-cell-not-in-lammps-form')
         for t in set(case['tags']):
             rec.count('normalize:cases-with-' + t + '-atoms')
         system = None
@@ -457,6 +670,47 @@ def run(ctx):
                 new2, T2 = new.normalize(return_transform=True)
                 rec.close(1e-8, T2, np.eye(3), 'normalizing a normalized system is the identity rotation', 'normalize:renormalize-transform')
                 rec.count('normalize:renormalized')
+
+    # ---- histories: several calls on one System / Box, at every length scale
+    for i in ctx.cases('hist', ctx.pick(572, 8580)):
+        rng = ctx.rng
+        kind = S.HISTORIES[i % 11]
+        scale = S.SCALES13[(i // 11) % 13]
+        how = S.NEWCELLS[(i // 3) % 7]
+        case = S.gen_system(rng, i, periodic_only=kind in S.PERIODIC_HISTORIES, max_atoms=24, scale=scale)
+        c = case['classes']
+        sname = S.scale_name(scale)
+        rec.case(('hist', kind, how) + class_sig(c), nontrivial=True, fp=fingerprint(kind, how, case['vects'], case['origin'], list(case['pbc']), case['pos']))
+        if i < 22:
+            rec.sample(dict(history=kind, newcell=how, classes=c, vects=case['vects'], origin=case['origin'], rel=case['rel'][:3]))
+        rec.count('hist:kind-' + kind)
+        rec.count('hist:scale-' + sname)
+        if scale <= S.TINY:
+            rec.count('hist:tiny-' + kind)
+        rec.count('hist:hand-' + ('left' if c['hand'] != 'right' else 'right'))
+        run_history(ctx, am, i, case, kind, how)
+
+    # ---- real working units: the cell is what unitconvert makes of an angstrom-sized crystal
+    import atomman.unitconvert as uc
+    UNITS = [('m', 1e-10), ('cm', 1e-8), ('nm', 0.1), ('mm', 1e-7), ('um', 1e-4), ('pm', 100.0), ('angstrom', 1.0), ('fm', 1e5)]
+    for i in ctx.cases('units', ctx.pick(96, 960)):
+        rng = ctx.rng
+        unit, expect = UNITS[i % 8]
+        kind = ['read-normalize', 'read-boxset-scaled-wrap', 'wrap-normalize-normalize', 'wrap-newcell-wrap', 'normalize-output-reused'][(i // 8) % 5]
+        how = S.NEWCELLS[(i // 3) % 7]
+        try:
+            uc.reset_units(length=unit, mass='amu', energy='eV', charge='e')
+            scale = float(uc.set_in_units(1.0, 'angstrom'))
+            rec.check(abs(scale / expect - 1) < 1e-9, 'one angstrom in working units is what the unit table says (workload sanity)', 'units:scale', unit=unit, scale=scale)
+            case = S.gen_system(rng, 5 * i + 3, periodic_only=kind in S.PERIODIC_HISTORIES, max_atoms=24, scale=scale)
+            c = case['classes']
+            rec.case(('units', unit, kind) + class_sig(c)[:3], nontrivial=True, fp=fingerprint(unit, kind, case['vects'], case['origin'], case['pos']))
+            rec.count('units:' + unit)
+            run_history(ctx, am, i, case, kind, how)
+        finally:
+            uc.reset_units(length='angstrom', mass='amu', energy='eV', charge='e')
+    back = float(uc.set_in_units(1.0, 'angstrom'))
+    rec.check(back == 1.0, 'working units restored after the units group (workload sanity)', 'units:restored', scale=back)
 
     # ---- reach and floors
     for k, v_ in monitor.calls.items():
@@ -501,3 +755,40 @@ def run(ctx):
     rec.floor('normalize:cases-with-face-atoms', 80)
     rec.floor('normalize:cases-with-far-atoms', 80)
     rec.floor('normalize:renormalized', 40)
+
+    # length scales and call histories
+    for sc in sorted(set(S.SCALES13)):
+        nm = S.scale_name(sc)
+        rec.floor('wrap:scale-' + nm, 40)
+        rec.floor('normalize:scale-' + nm, 30)
+        rec.floor('hist:scale-' + nm, 30)
+    rec.floor('normalize:tiny-cell-not-in-lammps-form', 60)
+    rec.floor('monitor:wrap:cell-below-1e-7', 200)
+    rec.floor('monitor:normalize>wrap:cell-below-1e-7', 150)
+    rec.floor('monitor:normalize:cell-below-1e-7', 150)
+    rec.floor('monitor:box_set-scale-true:cell-below-1e-7', 150)
+    for k in S.HISTORIES:
+        rec.floor('hist:kind-' + k, 40)
+        rec.floor('hist:completed-' + k, 40)
+        rec.floor('hist:tiny-' + k, 12)
+    for hw in S.NEWCELLS:
+        rec.floor('hist:newcell-' + hw, 30)
+    for st in S.CELL_STYLES:
+        rec.floor('hist:cellstyle-' + st, 40)
+    for st in S.MOVE_STYLES:
+        rec.floor('hist:move-' + st, 40)
+    for d in range(3):
+        rec.floor('hist:cell-direct-%d' % d, 10)
+    rec.floor('monitor:wrap:in-history', 400)
+    rec.floor('monitor:wrap:after-cell-replaced', 200)
+    rec.floor('monitor:normalize>wrap:after-cell-replaced', 60)
+    rec.floor('monitor:normalize:in-history', 250)
+    rec.floor('hist:step-move', 250)
+    rec.floor('hist:step-read-scaled', 150)
+    rec.floor('hist:step-set-cell-scaled', 150)
+    rec.floor('hist:step-set-cell', 100)
+    rec.floor('hist:pbc-changed', 40)
+    rec.floor('hist:normalize-twice-compared', 40)
+    rec.floor('hist:hand-left', 150)
+    for u in ('m', 'cm', 'nm', 'mm', 'um', 'pm', 'angstrom', 'fm'):
+        rec.floor('units:' + u, 10)
